@@ -1,5 +1,6 @@
 import FrappyModel.Node.Dispatch
 import FrappyModel.Datatypes.Import
+import FrappyModel.Node.AccessLock
 /-
 C04 — No invalid, forbidden or out-of-limit request ever reaches the driver.
 
@@ -220,6 +221,19 @@ def c01Accept (dt : DType F) (cls : Frappy.Err → Frappy.Node.Err) (j : JVal F)
   | .error e => .error (cls e)
 
 end c01
+
+/-! ## concurrency: the limits in force at the moment of the driver call
+
+"satisfies the module's CURRENT dynamic limits": with several threads (a poller reading a limit from the hardware,
+another module writing it) the limits that count are those in force when the driver is called, not those of some
+earlier moment of the same request. -/
+
+/-- every driver call of a run of the lock-discipline system was made with a value inside the limit of that moment -/
+def CallsWithinLimit (s : AccessLock.LState) : Prop := ∀ c ∈ s.calls, c.1 ≤ c.2
+
+/-- monitor for one driver call of the real code: the value, and the module as it was at the moment of the call -/
+def callWithinLimitsB (env : Env V) (mod : Module J V) (attr : String) (v : V) : Bool :=
+  decide (LimitsOK env mod attr v)
 
 /-! ## histories -/
 
